@@ -1,6 +1,6 @@
 (* C07 -- Inline markup renders to the intended structure (partial: see MANIFEST level text). *)
 From Rimu Require Import Base Unicode Regex RegexAnalysis RegexParse Str Types Tables Guards State Inline Block
-  Frame FrameBlock FrameInst OptionsLemmas MiscLemmas MoreLemmas Plain TableFacts PlainDoc Lines MatchExact Emphasis ParaDoc.
+  Frame FrameBlock FrameInst OptionsLemmas MiscLemmas MoreLemmas Plain TableFacts PlainDoc Lines MatchExact Emphasis ParaDoc ListDoc.
 
 (* All other characters come through unchanged except that <, > and & are escaped: inline text over the
    plain alphabet (letters, digits, blanks, newline and the punctuation that is part of no markup; decided for
@@ -78,3 +78,12 @@ Theorem C07_emphasis_document : forall n s c pre body post,
   Ok ($"<p>" ++ (escape (c :: pre) ++ $"<em>" ++ escape body ++ $"</em>" ++ escape post) ++ $"</p>", s).
 Proof. exact emphasis_document. Qed.
 Print Assumptions C07_emphasis_document.
+
+Theorem C07_emphasis_api : forall n o s s1 c pre body post,
+  updateFrom o (if (s_mode s =? -1)%Z then document_init s else s) = Ok (tt, s1) -> quiet_default s1 ->
+  In c safe_first -> RegexAnalysis.over safe_alphabet (c :: pre) -> RegexAnalysis.over safe_alphabet body -> body_ok body ->
+  RegexAnalysis.over safe_alphabet post ->
+  api_render (S (S (S (S (S (S n)))))) ((c :: pre) ++ star :: body ++ star :: post) o s =
+  Ok ($"<p>" ++ (escape (c :: pre) ++ $"<em>" ++ escape body ++ $"</em>" ++ escape post) ++ $"</p>", s1).
+Proof. exact emphasis_api. Qed.
+Print Assumptions C07_emphasis_api.
